@@ -613,6 +613,35 @@ class Plan:
                         cases.append(self.new_case(r, vs, {"feats": feats, "split": cfg.get("split", "one")}, script, f"sname:{lab}:{nm}"))
                     self.add_group("C16", cases, "contexts")
 
+    # -- E4: VARIANTS named like prelude / core items or like associated items of the implemented traits (C16)
+    def hostile_variant_names(self):
+        rng = self.rng
+        pools = [["None", "Some", "Ok", "Err", "Error", "Item"], ["Option", "Result", "Iterator", "IntoIterator", "Default", "Output"],
+                 ["Self_", "Copy", "Clone", "From", "Into", "Debug", "Display", "FromStr", "TryFrom"], ["Err", "Error"], ["Item", "IntoIter", "Iter"]]
+        for k, idents in enumerate(pools):
+            for r, gap in (("i8", True), ("u16", False)):
+                n = len(idents)
+                reals = list(range(-2, -2 + n)) if gap and prim.signed(r) else ([3 * j + (j // 2) for j in range(n)] if not gap else list(range(n)))
+                if not prim.signed(r):
+                    reals = [abs(x) + (0 if gap else 1) for x in reals]
+                    reals = sorted(set(reals))[:n]
+                    while len(reals) < n:
+                        reals.append(reals[-1] + 2)
+                gapless = runs_of(reals) == 1
+                plain = decorate(reals, r, rng, "ident", "shuffle", "dec")
+                hostile = [dict(v) for v in plain]
+                for v, nm in zip(hostile, idents):
+                    v["rename"] = v["ident"]          # same NAME as the plain member, other identifier
+                    v["ident"] = nm
+                p = prim.Proj(r)
+                probes = sorted({p.to_model(x + d) for x in reals for d in (-1, 0, 1) if prim.tmin(r) <= x + d <= prim.tmax(r)})
+                script = make_script(plain, r, probes, rng, level="light", str_cap=8, pairs_cap=9)
+                for lab, cfg in kappa_list(gapless):
+                    if lab in ("auto_norange", "mixed1"):
+                        continue
+                    cases = [self.new_case(r, plain, cfg, script, f"vname:{lab}:plain"), self.new_case(r, hostile, cfg, script, f"vname:{lab}:hostile{k}")]
+                    self.add_group("C16", cases, "contexts")
+
     # -- E2: hostile scopes on TLC shapes with many runs (C16)
     def contexts_on_shapes(self, reprs, per_repr):
         import contexts as cx
@@ -811,6 +840,7 @@ def build_plan(tier, seed):
         pl.contexts()
         pl.contexts_on_shapes(["i8", "u64"], 4)
         pl.hostile_enum_names()
+        pl.hostile_variant_names()
         pl.renamed()
         pl.large([60, 300, 1200])
         pl.large_fixed([("i8", list(range(-128, 128))), ("u8", list(range(0, 256))), ("i8", list(range(-100, 100))),
@@ -829,6 +859,7 @@ def build_plan(tier, seed):
         pl.contexts()
         pl.contexts_on_shapes(prim.REPRS, 10)
         pl.hostile_enum_names()
+        pl.hostile_variant_names()
         pl.renamed()
         pl.large([60, 127, 250, 300, 700, 1200, 2000, 5000])
         pl.large_fixed([("i8", list(range(-128, 128))), ("u8", list(range(0, 256))), ("i8", list(range(-100, 100))),
@@ -881,7 +912,7 @@ def write_crate(pl, outdir, cases_per_bin=120, rustflags=True):
     open(os.path.join(outdir, "Cargo.toml"), "w").write(CARGO_TOML % {"rt": rt, "repo": REPO})
     shutil.copy(os.path.join(REPO, "Cargo.lock"), os.path.join(outdir, "Cargo.lock"))
     open(os.path.join(outdir, ".cargo", "config.toml"), "w").write(
-        "[net]\noffline = true\n" + ("[build]\nrustflags = [\"--cfg\", \"enum_tools_verif\", \"--check-cfg\", \"cfg(enum_tools_verif)\", \"--cap-lints\", \"allow\"]\n" if rustflags else ""))
+        "[net]\noffline = true\n" + ("[build]\nrustflags = [\"--cfg\", \"enum_tools_verif\", \"--check-cfg\", \"cfg(enum_tools_verif)\"]\n" if rustflags else ""))
     # bins: groups are never split
     bins, cur, cnt = [], [], 0
     for g in pl.groups:
